@@ -49,6 +49,11 @@ let apply_op (p : profile) (x : rpu) (op : Stdlib.String.t) : rpu outcome =
       match Stdlib.List.map z_of_string (split ',' v) with
       | [ l; r; t; b ] -> set_offsets x l r t b
       | _ -> failwith "offsets")
+  | [ "srclv"; v ] -> (
+      let o s = if s = "-" then None else Some (z_of_string s) in
+      match split ',' v with
+      | [ a; b ] -> on_dm x (fun d -> Ok (change_source_levels (o a) (o b) d))
+      | _ -> failwith "srclv")
   | [ "rmmap" ] -> Ok (remove_mapping x)
   | [ "rmcmv40" ] -> Ok (remove_cmv40 x)
   | [ "conv"; m ] -> convert_with_mode x (n_of_string m)
